@@ -30,9 +30,15 @@ CLASSES = {
     "repr": [[("is_ntt_form", "x")]],
     "scale_bound": [[("scale", "x"), ("total_coeff_modulus_bit_count", "*")],
                     [("scale", "x"), ("plain_modulus", "*")]],
+    # a refusing branch whose condition is computed from parameter x and from the modulus size
+    "mag_bound": [[("param", "x"), ("total_coeff_modulus_bit_count", "*")]],
+    # a refusing branch that compares parameter x directly with the literal zero (sign test)
+    "positive": [[("cmp0", "x")]],
     "not_upward": [[("parms_id", "x"), ("chain_index", "*")]],
     "not_last": [[("parms_id", "x"), ("last_parms_id", "*")], [("parms_id", "x"), ("next_context_data", "*")]],
 }
+import re
+ZERO_LIT = re.compile(r"^0+(\.0*)?(_?(f64|f32|u64|usize|i64|u32|i32|u8|isize))?$")
 GUARD_ACCESSORS = {a for alts in CLASSES.values() for alt in alts for a, _ in alt}
 
 TRACKED = ("text::Ciphertext", "text::Plaintext", "key::PublicKey", "key::SecretKey", "key::KSwitchKeys",
@@ -82,7 +88,9 @@ class Summary:
 
 
 class GuardEngine:
-    def __init__(self, facts, refusal_values=("Err",), out_param_names=("destination", "result", "dest", "output")):
+    def __init__(self, facts, refusal_values=("Err",), out_param_names=("destination", "result", "dest", "output"),
+                 track_scalars=False):
+        self.track_scalars = track_scalars
         self.facts = facts
         self.memo = {}
         self.stack = []
@@ -207,14 +215,14 @@ class GuardEngine:
     def _analyse(self, fpath, it, body):
         eng = self
         facts = self.facts
-        defs = Defs(body)
+        defs = Defs(body, facts)
         ids0 = {}
         plid = {}
         for j, p in enumerate(it["params"]):
             if p["pat"].get("k") == "PBind":
                 plid[j] = p["pat"]["lid"]
                 t = p.get("ty", "")
-                if is_tracked_ty(t) or is_data_ty(t):
+                if is_tracked_ty(t) or is_data_ty(t) or (eng.track_scalars and p["pat"]["name"] != "self"):
                     if t.startswith("&mut ") and p["pat"]["name"] in eng.out_names:
                         ids0[p["pat"]["lid"]] = ("O", j)     # pure out-parameter: overwritten, not an operand
                     else:
@@ -268,6 +276,17 @@ class GuardEngine:
             mentions = set()
             for x in defs.closure(cond):
                 k = x.get("k")
+                if eng.track_scalars and k == "Path" and x.get("res") == "local":
+                    v = ids.get(x["lid"])
+                    if v is not None:
+                        mentions.add(("param", v))
+                if k == "Bin" and x.get("op") in ("<", "<=", ">", ">=", "==", "!="):
+                    for a, b in ((x["a"], x["b"]), (x["b"], x["a"])):
+                        sb = strip(b)
+                        if sb.get("k") == "Lit" and ZERO_LIT.match(sb.get("v", "")):
+                            v = eng.vid_of(a, ids)
+                            if v is not None:
+                                mentions.add(("cmp0", v))
                 if k == "MCall":
                     v = eng.vid_of(x["recv"], ids)
                     mentions.add((x["name"], v))
@@ -357,6 +376,12 @@ class GuardEngine:
                     v = eng.vid_of(n["init"], ids)
                     if v is None and is_tracked_ty(facts.strs[pat["t"]]):
                         v = call_result_vid(n["init"], ids)
+                    if v is None and eng.track_scalars:
+                        vs = {ids.get(x["lid"]) for x in walk(n["init"])
+                              if x.get("k") == "Path" and x.get("res") == "local" and ids.get(x["lid"]) is not None}
+                        vs = {x for x in vs if isinstance(x, tuple) and x[0] == "P"}
+                        if len(vs) == 1:
+                            v = vs.pop()
                     if v is not None:
                         ids[pat["lid"]] = v
                         return mk(ids, st[1])
